@@ -1051,9 +1051,10 @@ def run(ctx):
         ctx.sample({"calls": 3, "probe": "hr -p 8 -t -n 5 (plain, prefix)", "result": "the 3 records, in order"})
         # 6. second layer: the hr command line, container detection, the record schema (lib/c17ext.py)
         t1 = time.time()
-        c17ext.part_small(env, ctx)
+        follow = c17ext.argv_follow_up(env, ctx, env.write_log, simple_calls)
+        c17ext.part_small(env, ctx, follow)
         c17ext.part_iso(env, ctx)
-        c17ext.part_argv(env, ctx, c17ext.argv_follow_up(env, ctx, env.write_log, simple_calls))
+        c17ext.part_argv(env, ctx, follow)
         c17ext.part_format_direct(env, ctx)
         c17ext.part_reader_objects(env, ctx)
         c17ext.part_schema_written(env, ctx, env.write_log, gen_call)
